@@ -2,7 +2,13 @@
 
 package p2pke
 
-import "time"
+import (
+	"time"
+
+	"github.com/flynn/noise"
+
+	"go.brendoncarroll.net/p2p/f/x509"
+)
 
 // Read-only accessors (and one counter setter for the message-limit scenario) used by the
 // explicit-state checks; nothing here is compiled without the verif tag.
@@ -48,4 +54,22 @@ func (c *Channel) VerifSlots() (out [3]VerifSlot) {
 
 func (c *Channel) VerifTimersPending() (rekey, handshake bool) {
 	return c.rekeyTimer.IsPending(), c.handshakeTimer.IsPending()
+}
+
+// ---- attacker toolkit support (C03): the harness speaks the wire protocol by hand ----
+
+const (
+	VerifPurposeChannelBinding = purposeChannelBinding
+	VerifPurposeTimestamp      = purposeTimestamp
+)
+
+func VerifCipherSuite() noise.CipherSuite { return v1CipherSuite }
+
+// VerifSign produces a purpose-tagged signature exactly as the library does.
+func VerifSign(reg x509.Registry, key x509.PrivateKey, purpose string, msg []byte) []byte {
+	sig, err := sign(nil, &privateKey{Registry: reg, Key: key}, purpose, msg)
+	if err != nil {
+		panic(err)
+	}
+	return sig
 }
